@@ -351,7 +351,7 @@ PROPS["C17"] = {'assumptions': ["sync.Mutex / sync.RWMutex mutual exclusion, syn
  'level_text': 'lockset_sound (Eraser soundness for any number of threads over mutexes with a shared mode), cache_discipline (every method of SessionCache / '
                'SessionEntry in the regenerated fact table obeys the declared guard policy and releases its locks, hence no interleaving of any threads '
                'calling any of them on any objects has a data race on any field), cache_atomic_sections (each cache method is one critical section), '
-               'globals_once, invalidate_wins + wf_reachable (in every linearization nothing returns an invalidated id until it is stored again), resumption_path_never_stores + invalidate_wins_resumption (the stored-again hypothesis discharged from the code for resumptions in flight: regenerated table of cache calls on both resumption paths lists no Store), fact_tables_inhabited, sweep_count, '
+               'globals_once, counter_minted_in_one_step + atomic_mints_distinct (the session counter advances by ONE atomic read-modify-write in the regenerated table, hence all identifiers minted under any interleaving are distinct; split_mint_collides: load+store collides without a data race), client_store_files_entry_first + store_then_map_survives_sweep (storeClientSession files the entry before it maps commands, so a concurrent expiry sweep leaves the routes; map_then_store_loses_route: the other order), invalidate_wins + wf_reachable (in every linearization nothing returns an invalidated id until it is stored again), resumption_path_never_stores + invalidate_wins_resumption (the stored-again hypothesis discharged from the code for resumptions in flight: regenerated table of cache calls on both resumption paths lists no Store), fact_tables_inhabited, sweep_count, '
                'config_not_written (every library NewAuthenticator call site hands over a copy; only declared writes through configurations), '
                'handshakes_isolated (all interleavings, one copy per connection) with sharing_disturbs as the recorded reason, established_after_handshake, '
                'directions_independent (every interleaving of send and receive operations on an established stream shows each goroutine exactly what it sees '
